@@ -587,51 +587,52 @@ func ruleCTORSHAPE(c *Ctx, r *Report) {
 	}
 	nOp := 0
 	for _, fs := range c.storesToFields(opF) {
-		if fs.fn != general {
-			continue
-		}
-		v := c.resolve(fs.st.Val, nil)
-		if _, isParam := v.(*ssa.Parameter); isParam {
-			continue
-		}
-		nOp++
-		k, isC := v.(*ssa.Const)
-		key := "op-rewrite|" + c.key(v, nil)
-		if !isC || c.constName(k) != "expr.Like" {
-			r.bad(rule, key, c.instrPos(fs.st), "the constructor rewrites the operator to "+c.key(v, nil)+"; the only documented rewrite is Equals → Like for pattern operands")
-			continue
-		}
-		at := c.expand(c.domAtoms(fs.st.Block()), nil)
-		eq, pat := false, false
-		for _, a := range at {
-			if a.Kind == "cmp" && a.Subj == "$1" && a.Op == "==" && a.Val == "expr.Equals" {
-				eq = true
+		fs := fs
+		c.withContexts(fs.fn, general, 0, func(callerAtoms []Atom) {
+			v := c.resolve(fs.st.Val, nil)
+			if _, isParam := v.(*ssa.Parameter); isParam {
+				return
 			}
-		}
-		ops := c.possibleOps(at, "$2[0].(*expr.Expression).Op")
-		pat = subsetOf(ops, []string{"expr.Wild", "expr.Regexp"})
-		if !pat {
-			// through the helper's DNF
-			for _, a := range c.domAtoms(fs.st.Block()) {
-				if a.Kind == "call" && a.Pos && a.Fn != nil && a.Val == "$2[0]" {
-					s := c.boolSummaryOf(a.Fn)
-					okAll := s.ok && len(s.TrueSets) > 0
-					for _, set := range s.TrueSets {
-						if !subsetOf(c.possibleOps(set, "$0.(*expr.Expression).Op"), []string{"expr.Wild", "expr.Regexp"}) {
-							okAll = false
+			nOp++
+			k, isC := v.(*ssa.Const)
+			key := "op-rewrite|" + c.key(v, nil)
+			if !isC || c.constName(k) != "expr.Like" {
+				r.bad(rule, key, c.instrPos(fs.st), "the constructor rewrites the operator to "+c.key(v, nil)+"; the only documented rewrite is Equals → Like for pattern operands")
+				return
+			}
+			raw := append(append([]Atom(nil), callerAtoms...), c.domAtoms(fs.st.Block())...)
+			at := c.expand(raw, nil)
+			eq, pat := false, false
+			for _, a := range at {
+				if a.Kind == "cmp" && a.Subj == "$1" && a.Op == "==" && a.Val == "expr.Equals" {
+					eq = true
+				}
+			}
+			ops := c.possibleOps(at, "$2[0].(*expr.Expression).Op")
+			pat = subsetOf(ops, []string{"expr.Wild", "expr.Regexp"})
+			if !pat {
+				// through the helper's DNF
+				for _, a := range raw {
+					if a.Kind == "call" && a.Pos && a.Fn != nil && a.Val == "$2[0]" {
+						s := c.boolSummaryOf(a.Fn)
+						okAll := s.ok && len(s.TrueSets) > 0
+						for _, set := range s.TrueSets {
+							if !subsetOf(c.possibleOps(set, "$0.(*expr.Expression).Op"), []string{"expr.Wild", "expr.Regexp"}) {
+								okAll = false
+							}
 						}
-					}
-					if okAll {
-						pat = true
+						if okAll {
+							pat = true
+						}
 					}
 				}
 			}
-		}
-		if eq && pat {
-			r.ok(rule, key, c.instrPos(fs.st), "Equals with a Wild/Regexp operand becomes Like")
-		} else {
-			r.bad(rule, key, c.instrPos(fs.st), fmt.Sprintf("the Equals → Like rewrite is not confined to op == Equals (%v) with a Wild/Regexp right operand (%v): other comparisons or plain values would be rendered as pattern matches", eq, pat))
-		}
+			if eq && pat {
+				r.ok(rule, key, c.instrPos(fs.st), "Equals with a Wild/Regexp operand becomes Like")
+			} else {
+				r.bad(rule, key, c.instrPos(fs.st), fmt.Sprintf("the Equals → Like rewrite is not confined to op == Equals (%v) with a Wild/Regexp right operand (%v): other comparisons or plain values would be rendered as pattern matches", eq, pat))
+			}
+		})
 	}
 	r.floor(rule, "operator rewrites in the constructor", nOp, 1)
 	// RangeBoundary fields
@@ -642,17 +643,17 @@ func ruleCTORSHAPE(c *Ctx, r *Report) {
 	for i := 0; i < rst.NumFields(); i++ {
 		f := rst.Field(i)
 		for _, fs := range c.storesToFields(f) {
-			if fs.fn != general {
-				continue
-			}
-			seen++
-			k := c.key(fs.st.Val, nil)
-			key := "range-boundary|" + f.Name()
-			if strings.Contains(k, want[f.Name()]) && !strings.Contains(strings.ReplaceAll(k, want[f.Name()], ""), "$2[") {
-				r.ok(rule, key, c.instrPos(fs.st), k)
-			} else {
-				r.bad(rule, key, c.instrPos(fs.st), fmt.Sprintf("RangeBoundary.%s is built from %s; it must come from the operand %s (lower bound, upper bound, inclusive flag in that order)", f.Name(), k, want[f.Name()]))
-			}
+			fs := fs
+			c.withContexts(fs.fn, general, 0, func(callerAtoms []Atom) {
+				seen++
+				k := c.key(fs.st.Val, nil)
+				key := "range-boundary|" + f.Name()
+				if strings.Contains(k, want[f.Name()]) && !strings.Contains(strings.ReplaceAll(k, want[f.Name()], ""), "$2[") {
+					r.ok(rule, key, c.instrPos(fs.st), k)
+				} else {
+					r.bad(rule, key, c.instrPos(fs.st), fmt.Sprintf("RangeBoundary.%s is built from %s; it must come from the operand %s (lower bound, upper bound, inclusive flag in that order)", f.Name(), k, want[f.Name()]))
+				}
+			})
 		}
 	}
 	r.floor(rule, "RangeBoundary field stores in the constructor", seen, 3)
